@@ -101,7 +101,7 @@ M("frame-fallback-z-axis-forgotten", ["C01", "C17"], "gaddlemaps/_auxilliary.py"
   "        if abs(v12) < 0.9:", "        if abs(v12) < 2:")
 # ---- Monte-Carlo loop -------------------------------------------------------------------
 M("mc-accept-everything", ["C09"], "gaddlemaps/_backend.py",
-  "    condition = factor >= 1\n", "    condition = factor >= 0\n")
+  "    if energy_1 <= energy_0:\n        return True\n", "    if energy_1 <= energy_0 or energy_1 > energy_0:\n        return True\n")
 M("mc-accept-against-minimum", ["C09"], "gaddlemaps/_backend.py",
   "        if _accept_metropolis(chi2, chi2_new):", "        if _accept_metropolis(chi2_min, chi2_new):")
 M("mc-counter-reset-on-accept", ["C09"], "gaddlemaps/_backend.py",
